@@ -540,6 +540,23 @@ def t_conn_group_tgt():
     return g.set_start_nodes({r}), dict(sel=[c1, c2], conn=[cc], src=s, tgt=[grp], members={grp: m})
 
 
+def t_conn_group_excl():
+    """a target-side grouping connector with a conditional member, and a connection-exclusion edge from a source to the
+    grouping connector itself (the excluding source must not be taken for a member of the group)"""
+    B, N, CN, G, *_ = _imp()
+    g = B()
+    r = N('R')
+    a = [N('A0'), N('A1')]
+    s = [CN('S0', deg_spec='*', repeated_allowed=True), CN('S1', deg_spec='?')]
+    m = [CN('M0', deg_list=[0, 1]), CN('M1', deg_list=[1, 2], repeated_allowed=True)]
+    grp = G('GT')
+    t1 = CN('T1', deg_spec='*')
+    c1 = g.add_selection_choice('C1', r, a)
+    g.add_edges([(r, s[0]), (r, s[1]), (r, m[0]), (a[1], m[1]), (r, t1)])
+    cc = g.add_connection_choice('K', s, [(grp, m), t1], exclude=[(s[1], grp)])
+    return g.set_start_nodes({r}), dict(sel=[c1], conn=[cc], src=s, tgt=[grp, t1], members={grp: m})
+
+
 def t_conn_group3():
     """three members: one permanent, two conditional on options of two different choices, mixed repeatability"""
     B, N, CN, G, *_ = _imp()
@@ -655,7 +672,7 @@ TEMPLATES = {
     'conn_group_finite': t_conn_group_finite, 'conn_group_open': t_conn_group_open, 'conn_group_open2': t_conn_group_open2, 'conn_excl': t_conn_excl, 'conn_two': t_conn_two, 'conn_dv': t_conn_dv,
     'conn_excl_shift': t_conn_excl_shift, 'conn_two_infeasible': t_conn_two_infeasible,
     'conn_group_no_counterpart': t_conn_group_no_counterpart, 'conn_cond_choice': t_conn_cond_choice,
-    'conn_group_tgt': t_conn_group_tgt, 'conn_group3': t_conn_group3, 'conn_chain': t_conn_chain,
+    'conn_group_tgt': t_conn_group_tgt, 'conn_group_excl': t_conn_group_excl, 'conn_group3': t_conn_group3, 'conn_chain': t_conn_chain,
     'conn_excl_cond2': t_conn_excl_cond2, 'conn_rep_a': t_conn_rep_a, 'conn_rep_b': t_conn_rep_b,
 }
 CONN_TEMPLATES = [k for k in TEMPLATES if k.startswith('conn_')]
